@@ -7,7 +7,10 @@ Deductive (z3 / AST):
     event set and touches nothing else; one start + one end flow event per drawn edge sharing one id, on the (pid, tid) of the two
     events of the edge; source events are a prefix of the output when all events are kept;
   * generate_trace_with_counters: output events = source events followed by the counter events, name derived from the source name;
-  * read_trace / write_trace suffix rules and update_trace_rank (only distributedInfo.rank changes).
+  * read_trace / write_trace suffix rules and update_trace_rank (only distributedInfo.rank changes);
+  * create_rank_to_trace_dict executed by PyVC for two files of arbitrary length (with-statement, line-scanning loop with break
+    under an inductive invariant, possibly-unbound locals as obligations): each file is mapped from the number in its first
+    matching line (0 when none), later files win a shared rank, no other keys.
 Bounded: the three writers and the trace-file helpers on generated traces in both formats, several option combinations and
 multi-step histories on one TraceAnalysis object; rank discovery on written files.
 """
@@ -293,6 +296,181 @@ def _case(seed: int) -> Dict[str, Any]:
     return {"n_checks": max(n, 1), "fails": fails, "nontrivial": n > 0, "sample": {"seed": seed, "gz": gz}}
 
 
+# ---------------------------------------------------------------------------------------------- rank discovery under contract
+
+HAS_RANK = z3.Function("line_has_rank_text", z3.IntSort(), z3.BoolSort())  # rank_re.search(line) is not None
+RANK_OF = z3.Function("line_rank_number", z3.IntSort(), z3.IntSort())  # int(match.group(1)) of that line
+LINE_OF_TEXT = z3.Function("line_id_of_text", z3.StringSort(), z3.IntSort())
+
+
+class _Still:
+    def __deepcopy__(self, memo):
+        return self
+
+
+class _FileObj(_Still):
+    def __init__(self, lines, binary):
+        self.lines, self.binary = lines, binary
+
+
+def rank_discovery_vcs() -> List[core.VC]:
+    """create_rank_to_trace_dict executed by PyVC for two files of ARBITRARY length (lines are abstract; the regular
+    expression is two uninterpreted functions of the line: does it match, and which number).  Spec: a file's recorded rank is
+    the number in its first matching line, 0 when no line matches; the returned map sends each such rank to the LAST file of
+    the list recording it, and has no other keys."""
+    import re as _re
+
+    f = extract.get_function(TF, "create_rank_to_trace_dict")
+    fq = [f.fq]
+    node = extract.stripped(f)
+    paths = [z3.String("path_1"), z3.String("path_2")]
+    files = {0: pyvc.SymList(z3.IntSort(), "lines_1"), 1: pyvc.SymList(z3.IntSort(), "lines_2")}
+    opened: List[Any] = []
+    pattern: List[str] = []
+
+    def open_file(which):
+        @pyvc.intrinsic
+        def _open(ex, pc, env, args, kwargs):
+            idx = [i for i, pth in enumerate(paths) if args and z3.is_expr(args[0]) and args[0].eq(pth)]
+            if len(idx) != 1:
+                raise pyvc.Unsupported("open() of something else than an element of file_list")
+            mode = args[1] if len(args) > 1 else kwargs.get("mode", "r" if which == "open" else "rb")
+            opened.append((which, idx[0], mode))
+            return _FileObj(files[idx[0]], binary="b" in mode)
+        return _open
+
+    class _Regex(_Still):
+        def hv_call_method(self, ex, attr, args, kwargs, pc, env):
+            if attr != "search" or len(args) != 1:
+                return NotImplemented
+            d = args[0]
+            if isinstance(d, str):
+                m = _re.search(pattern[0], d)
+                return None if m is None else pyvc.Record("Match", {"number": int(m.group(1))}, frozen=True)
+            if isinstance(d, pyvc.Record) and d.cls == "Line":
+                if d.fields["is_bytes"]:
+                    raise pyvc.Unsupported("str pattern searched in bytes (TypeError)")
+                lid = d.fields["id"]
+                return pyvc.PathValues([(HAS_RANK(lid), pyvc.Record("Match", {"number": RANK_OF(lid)}, frozen=True)), (z3.Not(HAS_RANK(lid)), None)])
+            raise pyvc.Unsupported("rank_re.search of this value")
+
+    @pyvc.intrinsic
+    def re_compile(ex, pc, env, args, kwargs):
+        pattern.append(args[0])
+        return _Regex()
+
+    @pyvc.intrinsic
+    def _isinstance(ex, pc, env, args, kwargs):
+        v, t = args
+        if isinstance(v, pyvc.Record) and v.cls == "Line" and isinstance(t, pyvc.Builtin) and t.name == "bytes":
+            return v.fields["is_bytes"]
+        raise pyvc.Unsupported("isinstance of this value")
+
+    @pyvc.intrinsic
+    def _int(ex, pc, env, args, kwargs):
+        v = args[0]
+        if isinstance(v, pyvc.Record) and v.cls == "Group":
+            return v.fields["number"]
+        return pyvc._BUILTINS["int"](ex, pc, args, kwargs)
+
+    def line_of(fobj, k):
+        return pyvc.Record("Line", {"id": fobj.lines.at(k), "is_bytes": fobj.binary}, frozen=True)
+
+    def inv(env, k, it):
+        spec = specs_by_lines[id(it.lines)]
+        j = z3.Int("lj")
+        clauses = [z3.ForAll([j], z3.Implies(z3.And(j >= 0, j < k), z3.Not(HAS_RANK(it.lines.at(j)))), patterns=[HAS_RANK(it.lines.at(j))])]
+        d = env.get("data")
+        if isinstance(d, pyvc.Record) and d.cls == "Line":
+            clauses.append(z3.Implies(k > 0, z3.And(d.fields["id"] == it.lines.at(k - 1))))
+            e0 = spec.entry_env.get("data")
+            if isinstance(e0, pyvc.Record) and e0.cls == "Line":
+                clauses.append(z3.Implies(k == 0, d.fields["id"] == e0.fields["id"]))
+            elif isinstance(e0, str):
+                clauses.append(z3.Implies(k == 0, d.fields["id"] == LINE_OF_TEXT(z3.StringVal(e0))))
+        return z3.And(*clauses)
+
+    def fresh_like(name, old):
+        if name == "data":
+            return pyvc.Record("Line", {"id": pyvc.fresh("data_line", z3.IntSort()), "is_bytes": False}, frozen=True)
+        if name == "line":
+            return old
+        return pyvc.default_fresh_like(name, old)
+
+    def mk_spec():
+        return pyvc.LoopSpec(["data"], inv, elem=line_of, length=lambda fobj: fobj.lines.length, fresh_like=fresh_like, name="scan", allow_break=True,
+                             unbound={"data": lambda: pyvc.Record("Line", {"id": pyvc.fresh("data_line", z3.IntSort()), "is_bytes": False}, frozen=True)})
+
+    inner = [n for n in ast.walk(node) if isinstance(n, ast.For) and any(isinstance(b, ast.Break) for b in ast.walk(n))
+             and not any(isinstance(c, ast.For) and c is not n for c in ast.walk(n))]
+    if len(inner) != 1:
+        raise pyvc.Unsupported("expected exactly one line-scanning loop with a break")
+    sp = mk_spec()
+
+    class _One(dict):
+        def __getitem__(self, k):
+            return sp
+
+    specs_by_lines = _One()
+    ex = pyvc.Exec(consts={"re": pyvc.Namespace("re", {"compile": re_compile}), "gzip": pyvc.Namespace("gzip", {"open": open_file("gzip.open")})},
+                   intrinsics={"open": open_file("open"), "isinstance": _isinstance, "int": _int}, name=f"{PROP}.rank_discovery", loop_specs={("line", inner[0].lineno): sp})
+    ex.consts["bytes"] = pyvc.Builtin("bytes")
+    ex.empty_dict_factory = lambda: pyvc.SymMap.empty(z3.IntSort(), z3.StringSort())
+    ex.methods["Line.decode"] = lambda ex_, pc, env, obj, args, kwargs: pyvc.Record("Line", {"id": obj.fields["id"], "is_bytes": False}, frozen=True)
+    ex.methods["Match.group"] = lambda ex_, pc, env, obj, args, kwargs: pyvc.Record("Group", {"number": obj.fields["number"]}, frozen=True) if list(args) == [1] else (_ for _ in ()).throw(pyvc.Unsupported("match.group(n != 1)"))
+    # a data line that was a concrete string before the loop (after a repair that initialises it): its abstract id is tied to the text
+    outs = ex.run_function(node, {"file_list": list(paths)}, [paths[0] != paths[1]])
+    vcs = [core.VC(pv.name, pv.hyps + list(ex.facts), pv.goal, "vc", fq, {"lines_in_file_1": files[0].length, "lines_in_file_2": files[1].length}, note=pv.note) for pv in ex.vcs]
+    if not pattern:
+        raise pyvc.Unsupported("re.compile call not found")
+    # ghost: first matching line per file
+    first = [z3.Int("first_match_1"), z3.Int("first_match_2")]
+    j = z3.Int("gj")
+    ghost = []
+    some = []
+    for i in (0, 1):
+        L = files[i]
+        sm_def = z3.Exists([j], z3.And(j >= 0, j < L.length, HAS_RANK(L.at(j))))
+        sm = z3.Bool(f"file_{i + 1}_has_rank_text")
+        ghost.append(sm == sm_def)
+        some.append(sm)
+        ghost += [L.length >= 0, z3.Implies(sm, z3.And(first[i] >= 0, first[i] < L.length, HAS_RANK(L.at(first[i])),
+                                                      z3.ForAll([j], z3.Implies(z3.And(j >= 0, j < first[i]), z3.Not(HAS_RANK(L.at(j)))), patterns=[HAS_RANK(L.at(j))]))),
+                  z3.ForAll([j], z3.Implies(HAS_RANK(j), RANK_OF(j) >= 0), patterns=[RANK_OF(j)])]
+    if _re.search(pattern[0], "") is None:
+        ghost.append(z3.Not(HAS_RANK(LINE_OF_TEXT(z3.StringVal("")))))
+    rank = [z3.If(some[i], RANK_OF(files[i].at(first[i])), 0) for i in (0, 1)]
+    rets = [o for o in outs if o.kind == "ret"]
+    for o in outs:
+        if o.kind == "raise":
+            vcs.append(core.VC(f"{PROP}.rank_discovery.noraise", ghost + [to_z3(c) for c in o.pc] + list(ex.facts), z3.BoolVal(False), "vc", fq, {}, note=f"raises {o.exc}"))
+    if not rets:
+        raise pyvc.Unsupported("create_rank_to_trace_dict never returns")
+    kq = z3.Int("any_rank")
+    reach: List[Any] = []
+    mv = {"lines_in_file_1": files[0].length, "lines_in_file_2": files[1].length, "rank_1": rank[0], "rank_2": rank[1], "file_1_has_rank_text": some[0], "file_2_has_rank_text": some[1]}
+    for n_, o in enumerate(rets):
+        hy = ghost + [to_z3(c) for c in o.pc] + list(ex.facts)
+        val = o.value
+        if not (isinstance(val, tuple) and len(val) == 2 and isinstance(val[1], pyvc.SymMap)):
+            raise pyvc.Unsupported("unexpected return value shape")
+        m = val[1]
+        tag = f"{PROP}.rank_discovery.path{n_}"
+        vcs.append(core.VC(f"{tag}.success_flag", hy, to_z3(val[0]) == True, "vc", fq, mv))  # noqa: E712
+        vcs.append(core.VC(f"{tag}.last_file_keeps_its_rank", hy, z3.And(m.has(rank[1]), m.get(rank[1]) == paths[1]), "vc", fq, mv,
+                           note="the second file is mapped from the rank in its first matching line (0 when it has none)"))
+        vcs.append(core.VC(f"{tag}.first_file_keeps_its_rank_unless_displaced", hy + [rank[0] != rank[1]], z3.And(m.has(rank[0]), m.get(rank[0]) == paths[0]), "vc", fq, mv))
+        vcs.append(core.VC(f"{tag}.no_other_ranks", hy + [kq != rank[0], kq != rank[1]], z3.Not(m.has(kq)), "vc", fq, {**mv, "any_rank": kq}))
+        reach.append(z3.And(*[to_z3(c) for c in o.pc]))
+    # guards: the return paths are jointly reachable in the scenarios that matter (an explored path may be infeasible; its VCs are then vacuous and harmless)
+    scen = {"both_files_carry_a_rank": [some[0], some[1]], "second_file_is_empty": [some[0], files[1].length == 0], "no_file_carries_a_rank": [z3.Not(some[0]), z3.Not(some[1]), files[0].length == 2]}
+    for nm, extra in scen.items():
+        vcs.append(core.VC(f"{PROP}.rank_discovery.guard.{nm}", ghost + list(ex.facts) + extra + [z3.Or(*reach)], z3.BoolVal(False), "vacuity", fq))
+    modes_ok = all((w == "gzip.open") == ("b" in md) for w, _, md in opened) and len(opened) >= 2
+    vcs.append(core.VC(f"{PROP}.rank_discovery.each_file_opened_once_per_branch", [], z3.BoolVal(modes_ok), "vc", fq, {}, note=f"opens: {opened}"))
+    return vcs
+
+
 def _rank_discovery_case(i: int) -> Dict[str, Any]:
     """files whose metadata rank must be found although other 'rank'-looking text exists / no metadata exists"""
     from hv import rt, synth
@@ -301,6 +479,22 @@ def _rank_discovery_case(i: int) -> Dict[str, Any]:
     fails: List[Dict[str, Any]] = []
     outdir = tempfile.mkdtemp(prefix="hv_c20r_")
     try:
+        if i == 3:
+            # a zero-byte file (a crashed job's trace) next to a ranked file, in both orders and alone
+            plain = [synth.host_op("aten::first", 10, 5)]
+            a, b = os.path.join(outdir, "ranked.json"), os.path.join(outdir, "empty.json")
+            synth.write_doc(a, synth.trace_doc(plain, rank=4))
+            open(b, "w").close()
+            for paths, exp in (([a, b], {4: a, 0: b}), ([b, a], {0: b, 4: a}), ([b], {0: b})):
+                inp = {"case": i, "files": [os.path.basename(p) for p in paths]}
+                try:
+                    okd, mapping = rt.lib(fails, "create_rank_to_trace_dict(empty file)", inp, tfm.create_rank_to_trace_dict, paths)
+                    if mapping != exp:
+                        fails.append({"what": "rank_discovery_with_an_empty_file", "input": inp, "observed": {str(k): os.path.basename(v) for k, v in mapping.items()},
+                                      "expected": {str(k): os.path.basename(v) for k, v in exp.items()}})
+                except rt.LibFailure:
+                    pass
+            return {"n_checks": 3, "fails": fails, "nontrivial": True, "sample": {"rank_discovery_case": i}}
         if i == 2:
             # several files in one call, none with a rank-like event argument: ranked, rank-less, ranked
             plain = [synth.host_op("aten::first", 10, 5), synth.host_op("aten::mm", 20, 5)]
@@ -353,22 +547,78 @@ def bounded(ctx):
 
     _FINDINGS[:] = ctx.findings
     n = 24 if not ctx.thorough else 300
-    res = rt.pmap(_rank_discovery_case, [0, 1, 2], 3) + rt.pmap(_case, [ctx.seed * 73 + i for i in range(n)], ctx.procs)
+    res = rt.pmap(_rank_discovery_case, [0, 1, 2, 3], 4) + rt.pmap(_case, [ctx.seed * 73 + i for i in range(n)], ctx.procs)
     return rt.summarise(res, f"{PROP}.bounded", f"{n} generated traces in .json / .json.gz, each with a five-step history on one TraceAnalysis object (counters, overlay, counters, overlay with "
                         "all edges, overlay with critical events only), trace-file round trips and rank updates; two rank-discovery cases with an event argument named rank")
 
 
+def replay(ctx, rec: Dict[str, Any]) -> Dict[str, Any]:
+    """Counter-models of the rank-discovery obligations as real files: file i has lines_in_file_i lines; a file with a rank
+    text carries it as pretty-printed distributedInfo metadata on its first lines, the other lines are event text."""
+    name = rec.get("name", "")
+    m = rec.get("model") or {}
+    if ".rank_discovery." not in name or "lines_in_file_1" not in m:
+        return {"confirmed": False, "why": "no replay for this obligation"}
+    from hta.common import trace_file as tfm
+
+    def as_int(x, default):
+        try:
+            return int(str(x))
+        except ValueError:
+            return default
+
+    n = [max(0, as_int(m.get("lines_in_file_1"), 0)), max(0, as_int(m.get("lines_in_file_2"), 0))]
+    ranks = [as_int(m.get("rank_1"), 3), as_int(m.get("rank_2"), 0)]
+    work = tempfile.mkdtemp(prefix="hv_c20_replay_")
+    try:
+        paths, expect = [], {}
+        for i in (0, 1):
+            p = os.path.join(work, f"file_{i + 1}.json")
+            lines = []
+            has = str(m.get(f"file_{i + 1}_has_rank_text", "True")) == "True"
+            if n[i] > 0 and not has:
+                lines = json.dumps({"schemaVersion": 1, "traceEvents": []}, indent=2).splitlines()
+                ranks[i] = 0
+            elif n[i] > 0:
+                doc = json.dumps({"distributedInfo": {"rank": ranks[i]}, "traceEvents": []}, indent=2).splitlines()
+                lines = doc[:]
+                while len(lines) < min(n[i], 50):
+                    lines.append("")
+            with open(p, "w") as fh:
+                fh.write("\n".join(lines) + ("\n" if lines else ""))
+            paths.append(p)
+            expect[ranks[i] if n[i] > 0 else 0] = p  # later file wins a shared rank
+        only_first = "unbound" in name and n[0] == 0
+        use = paths[:1] if only_first else paths
+        if only_first:
+            expect = {0: paths[0]}
+        try:
+            ok, got = tfm.create_rank_to_trace_dict(use)
+        except Exception as e:  # noqa: BLE001
+            return {"confirmed": True, "input": {"files": [f"{os.path.basename(p)}: {k} lines" for p, k in zip(use, n)]}, "observed": f"{type(e).__name__}: {e}",
+                    "expected": {str(k): os.path.basename(v) for k, v in expect.items()}, "how": "hta.common.trace_file.create_rank_to_trace_dict on files written from the counter-model"}
+        return {"confirmed": (not ok) or got != expect, "input": {"files": [f"{os.path.basename(p)}: {k} lines, rank text {r if k else None}" for p, k, r in zip(use, n, ranks)]},
+                "observed": {str(k): os.path.basename(v) for k, v in got.items()}, "expected": {str(k): os.path.basename(v) for k, v in expect.items()},
+                "how": "hta.common.trace_file.create_rank_to_trace_dict on files written from the counter-model"}
+    finally:
+        shutil.rmtree(work, ignore_errors=True)
+
+
 def units(ctx):
     return [core.Unit(f"{PROP}.flow_event", flow_event_vcs, [TR + ".Trace.flow_event"]), core.Unit(f"{PROP}.suffix", suffix_vcs, [TR + ".Trace.write_raw_trace", TF + ".read_trace", TF + ".write_trace"]),
-            core.Unit(f"{PROP}.writers", writers_vcs, [TA + ".TraceAnalysis.generate_trace_with_counters", CPA + ".CriticalPathAnalysis.overlay_critical_path_analysis"])]
+            core.Unit(f"{PROP}.writers", writers_vcs, [TA + ".TraceAnalysis.generate_trace_with_counters", CPA + ".CriticalPathAnalysis.overlay_critical_path_analysis"]),
+            core.Unit(f"{PROP}.rank_discovery", rank_discovery_vcs, [TF + ".create_rank_to_trace_dict"])]
 
 
 SPEC = Spec(
     prop=PROP, level="other",
     functions=[(TR, "Trace.flow_event"), (TR, "Trace.write_raw_trace"), (TR, "Trace.get_raw_trace_for_one_rank"), (TF, "read_trace"), (TF, "write_trace"), (TF, "update_trace_rank"),
                (TF, "create_rank_to_trace_dict"), (TA, "TraceAnalysis.generate_trace_with_counters"), (CPA, "CriticalPathAnalysis.overlay_critical_path_analysis")],
-    units=units, bounded=[Bounded("writers_vs_source", bounded)],
-    trusted=["json.loads(json.dumps(x)) = x on JSON values; gzip round trip; list.extend appends", "every complete event of a real trace carries an args object (the overlay writes into it)"],
+    units=units, bounded=[Bounded("writers_vs_source", bounded)], replay=replay,
+    trusted=["json.loads(json.dumps(x)) = x on JSON values; gzip round trip; list.extend appends", "every complete event of a real trace carries an args object (the overlay writes into it)",
+             "rank discovery: the regular expression is abstracted to two uninterpreted functions of a line (matches / number); iterating a file yields its lines in order; "
+             "`with` is binding + body (the context manager's __exit__ is not modelled); two files stand for the list (the loop body is the same for every file)"],
     explanation="Proved (z3 from the AST): flow_event's dict and the overlay's marking loop. By statement correspondence: suffix agreement of writer and readers, append-only structure of "
-                "the writers, fresh raw trace per call, rank update. Bounded: the written files compared with the source events, multi-step histories, rank discovery.",
+                "the writers, fresh raw trace per call, rank update. Proved for files of any length: the rank-discovery scan (first matching line decides, no state carried "
+                "from one file to the next). Bounded: the written files compared with the source events, multi-step histories, rank discovery on real files (incl. empty ones).",
 )
